@@ -41,6 +41,9 @@ func defects(validNonce string) []defect {
 		{name: "empty-nonce", nonce: "\x00empty", mi: "ok", wantChallenge: 438},
 		{name: "random-nonce", nonce: "3q2w1e4r5t6y7u8i9o0p", mi: "ok", wantChallenge: 438},
 		{name: "other-realm", realm: "evil.example", mi: "ok"},
+		// REALM names another realm, the HMAC is keyed with the account of the server's own realm: the handler
+		// has no such (user, realm) and must be asked about the realm that was presented
+		{name: "other-realm-signed-with-the-home-realm-key", realm: "evil.example", mi: "homekey"},
 	}
 	for bit := 0; bit < 160; bit++ {
 		d = append(d, defect{name: fmt.Sprintf("hmac-bitflip-%03d", bit), mi: "flip", bit: bit})
@@ -112,6 +115,8 @@ func build(method uint16, tx [12]byte, attrs func(b *wire.B), user, pass, nonce 
 	switch d.mi {
 	case "ok", "otheruser":
 		b.Integrity(key)
+	case "homekey":
+		b.Integrity(wire.LongTermKey(keyUser, vtx.Realm, pass))
 	case "none":
 	case "wrongkey":
 		b.Integrity(wire.LongTermKey(keyUser, keyRealm, pass+"x"))
@@ -161,13 +166,14 @@ func udpMethods() []methodSpec {
 }
 
 // One world per (state, method); every defect is tried in it as long as the
-// model says nothing changed. state: "none" | "own" | "other-user".
+// model says nothing changed. state: "none" | "own" | "own-anon" (the owner's user id is "") | "other-user".
 const allocTx = "c03-alloc-tx"
 
 func runUDP(t *testing.T, r *rep.Report, state string, ms methodSpec, noAuth bool) {
 	var fatal string
 	sameTx := ms.name == "Allocate-same-transaction-id"
-	if sameTx && state != "own" {
+	own := state == "own" || state == "own-anon"
+	if sameTx && !own {
 		// no allocation: nothing to replay; another user's *valid* credentials: C03 exempts Allocate from the owner rule
 		return
 	}
@@ -179,7 +185,7 @@ func runUDP(t *testing.T, r *rep.Report, state string, ms methodSpec, noAuth boo
 		}()
 		synctest.Test(t, func(*testing.T) {
 			cfg := vtx.Config{Lifetime: 10 * time.Hour}
-			w, err := vtx.NewWorld(cfg, []string{"c1", "c2"}, []string{"A", "B"})
+			w, err := vtx.NewWorld(cfg, []string{"c1", "c2", "c4"}, []string{"A", "B"})
 			if err != nil {
 				r.Violate(rep.Violation{Oracle: "harness", Signature: "harness:newworld", Detail: err.Error()})
 
@@ -187,11 +193,15 @@ func runUDP(t *testing.T, r *rep.Report, state string, ms methodSpec, noAuth boo
 			}
 			defer w.Close()
 			x := &vtx.Exec{W: w, M: vtx.NewModel(cfg), Chans: []uint16{0x4000, 0x4001}}
-			c1 := w.C["c1"]
+			cn := "c1"
+			if state == "own-anon" {
+				cn = "c4" // the allocation's owner has the empty user id
+			}
+			c1 := w.C[cn]
 			setup := []vtx.Event{}
 			if state != "none" {
-				setup = append(setup, vtx.Event{K: "alloc", C: "c1", L: -1, FixTx: allocTx}, vtx.Event{K: "perm", C: "c1", Peers: []string{"A"}, L: -1},
-					vtx.Event{K: "chan", C: "c1", N: 0x4000, Peers: []string{"A"}, L: -1})
+				setup = append(setup, vtx.Event{K: "alloc", C: cn, L: -1, FixTx: allocTx}, vtx.Event{K: "perm", C: cn, Peers: []string{"A"}, L: -1},
+					vtx.Event{K: "chan", C: cn, N: 0x4000, Peers: []string{"A"}, L: -1})
 			} else {
 				// obtain a nonce
 				c1.Request(wire.Refresh, nil, nil)
@@ -213,10 +223,10 @@ func runUDP(t *testing.T, r *rep.Report, state string, ms methodSpec, noAuth boo
 				if state == "other-user" && !d.valid {
 					continue // the other-user column is the defect itself
 				}
-				if sameTx && d.valid && state == "own" {
+				if sameTx && d.valid && own {
 					continue // the genuine retransmission (idempotent success) is C19's subject
 				}
-				if d.valid && state != "other-user" && (!ms.needsAlloc || state == "own") && !(ms.method == wire.Allocate && state == "own") {
+				if d.valid && state != "other-user" && (!ms.needsAlloc || own) && !(ms.method == wire.Allocate && own) {
 					continue // the legitimate request is sent last (it changes state)
 				}
 				label := fmt.Sprintf("udp/%s/%s/%s", state, ms.name, d.name)
@@ -272,7 +282,7 @@ func runUDP(t *testing.T, r *rep.Report, state string, ms methodSpec, noAuth boo
 
 					return
 				}
-				ev := vtx.Event{K: "req", C: "c1", L: -1}
+				ev := vtx.Event{K: "req", C: cn, L: -1}
 				if v := x.CheckCount(ev); v != nil {
 					fail("state-changed:"+ms.name+":"+classOf(d, state)+":count", v.Detail)
 
@@ -295,7 +305,7 @@ func runUDP(t *testing.T, r *rep.Report, state string, ms methodSpec, noAuth boo
 						ok = true
 					}
 				}
-				should := (!ms.needsAlloc || state == "own") && !(ms.method == wire.Allocate && state == "own")
+				should := (!ms.needsAlloc || own) && !(ms.method == wire.Allocate && own)
 				if should && !ok {
 					r.Violate(rep.Violation{Oracle: "c03", Signature: "fresh-challenge-nonce-not-accepted:" + ms.name, Detail: state})
 				}
@@ -329,7 +339,7 @@ func TestC03Server(t *testing.T) {
 	defer r.Write()
 	shard, n := rep.Shard()
 	idx := 0
-	for _, state := range []string{"none", "own", "other-user"} {
+	for _, state := range []string{"none", "own", "own-anon", "other-user"} {
 		for _, ms := range udpMethods() {
 			idx++
 			if idx%n != shard {
